@@ -101,10 +101,20 @@ class HLock:
     def __init__(self, env):
         self.env = env
         self.holder = None
+        self.waiting = 0
+
+    def __len__(self):
+        # like a FIFO lock exposing its queue: the number of waiters — 0, hence *falsy*, when the tee is created.
+        # "a lock is supplied" means `lock is not None`, not `bool(lock)`.
+        return self.waiting
 
     async def __aenter__(self):
-        while self.holder is not None:
-            await Susp(["lock"])
+        self.waiting += 1
+        try:
+            while self.holder is not None:
+                await Susp(["lock"])
+        finally:
+            self.waiting -= 1
         self.holder = self.env.cur
 
     async def __aexit__(self, et, ev, tb):
